@@ -57,7 +57,7 @@ func TestConverge(t *testing.T) {
 			defer func() { <-sem }()
 			out := RunConverge(sc, slot)
 			retried := false
-			if in.Retry && hasLive(out) {
+			if in.Retry && !sc.NoRetry && hasLive(out) {
 				mu.Lock()
 				slotN++
 				slot2 := slotN
@@ -125,4 +125,189 @@ func hasLive(o *Outcome) bool {
 		}
 	}
 	return false
+}
+
+type byzIn struct {
+	Scenarios []ByzScenario `json:"scenarios"`
+	Width     int           `json:"width"`
+	Retry     bool          `json:"retry"`
+}
+
+// TestByz (C11): a real victim syncer with honest peers and scripted Byzantine peers; a liveness
+// failure is retried once before it is reported.  The call logs of the victim and of the honest
+// peers go to byztrace-<shard>.ndjson for TLC (SyncTrace.tla).  A journal of started/finished
+// scenarios (byz-journal.txt) lets the check attribute a process crash to a scenario.
+func TestByz(t *testing.T) {
+	res := hx.NewResult()
+	defer res.Write()
+	var in byzIn
+	if err := hx.ReadIn(&in); err != nil {
+		t.Fatal(err)
+	}
+	if in.Width <= 0 {
+		in.Width = 12
+	}
+	dir := os.Getenv("VERIF_WORK")
+	shards := 8
+	tws := make([]*hx.TraceWriter, shards)
+	for i := range tws {
+		tw, err := hx.NewTraceWriter(filepath.Join(dir, fmt.Sprintf("byztrace-%d.ndjson", i)))
+		if err != nil {
+			t.Fatal(err)
+		}
+		tws[i] = tw
+	}
+	journal, err := os.OpenFile(filepath.Join(dir, "byz-journal.txt"), os.O_CREATE|os.O_WRONLY|os.O_APPEND, 0o644)
+	if err != nil {
+		t.Fatal(err)
+	}
+	defer journal.Close()
+	var mu sync.Mutex
+	var wg sync.WaitGroup
+	sem := make(chan struct{}, in.Width)
+	var slotN int
+	for i, sc := range in.Scenarios {
+		wg.Add(1)
+		sem <- struct{}{}
+		mu.Lock()
+		slotN++
+		slot := slotN
+		fmt.Fprintf(journal, "start %s\n", sc.ID)
+		mu.Unlock()
+		go func(i int, sc ByzScenario, slot int) {
+			defer wg.Done()
+			defer func() { <-sem }()
+			out := RunByz(sc, slot)
+			retried := false
+			live := func(o *ByzOutcome) bool {
+				for _, p := range o.Problems {
+					if p.Live {
+						return true
+					}
+				}
+				return false
+			}
+			if in.Retry && live(out) {
+				mu.Lock()
+				slotN++
+				slot2 := slotN
+				mu.Unlock()
+				first := out
+				out = RunByz(sc, slot2)
+				retried = true
+				if dir != "" {
+					os.WriteFile(filepath.Join(dir, "retry-"+sc.ID+".log"), []byte(fmt.Sprintf("%v\n%s\n", first.Problems, strings.Join(first.Log, "\n"))), 0o644)
+				}
+				if live(out) {
+					out.Log = append(append(first.Log, "---- retry ----"), out.Log...)
+				}
+			}
+			mu.Lock()
+			defer mu.Unlock()
+			fmt.Fprintf(journal, "done %s\n", sc.ID)
+			res.Eval(sc.Shape)
+			res.Count("events", out.NEvents)
+			nf := 0
+			for k, n := range out.Fired {
+				res.Count("fired:"+k, n)
+				nf += n
+			}
+			if nf == 0 {
+				res.Count("vacuous", 1)
+				res.Note("scenario %s (%s): no corrupted answer was delivered", sc.ID, sc.Shape)
+			}
+			if retried {
+				res.Count("retried", 1)
+				res.Note("scenario %s (%s) needed a retry", sc.ID, sc.Shape)
+			}
+			if out.Reached {
+				res.Count("reached", 1)
+				res.Count("reach_ms_total", int(out.Ms))
+			}
+			res.Count("bans", len(out.Bans))
+			infra := false
+			for _, p := range out.Problems {
+				if strings.HasPrefix(p.Sig, "infra:") {
+					infra = true
+					res.Note("INFRA %s: %s %s", sc.ID, p.Sig, p.Desc)
+					res.Count("infra", 1)
+					continue
+				}
+				res.Mismatch(p.Sig, fmt.Sprintf("scenario %s (%s): %s", sc.ID, sc.Shape, p.Desc),
+					map[string]any{"kind": "byz", "scenario": sc, "log": out.Log, "tips": out.Tips, "fired": out.Fired, "bans": out.Bans, "served": out.Served})
+			}
+			if !infra && len(out.Events) > 0 {
+				tw := tws[i%shards]
+				for _, ev := range out.Events {
+					tw.Emit(ev)
+				}
+				res.Traces += 2
+			}
+			if i < 2 {
+				res.Sample(map[string]any{"scenario": sc, "tips": out.Tips, "ms": out.Ms, "fired": out.Fired, "bans": out.Bans, "log": out.Log})
+			}
+		}(i, sc, slot)
+	}
+	wg.Wait()
+	for _, tw := range tws {
+		if err := tw.Close(); err != nil {
+			t.Fatal(err)
+		}
+	}
+	res.Count("scenarios", len(in.Scenarios))
+}
+
+// TestReplay (Leg R): steps a real victim through every path of $VERIF_IN (macro-steps of Sync.tla's
+// explored graph) and compares the projected real state with the specification's after every step.
+func TestReplay(t *testing.T) {
+	res := hx.NewResult()
+	defer res.Write()
+	var in replayIn
+	if err := hx.ReadIn(&in); err != nil {
+		t.Fatal(err)
+	}
+	if in.Width <= 0 {
+		in.Width = 12
+	}
+	var mu sync.Mutex
+	var wg sync.WaitGroup
+	sem := make(chan struct{}, in.Width)
+	for i, p := range in.Paths {
+		wg.Add(1)
+		sem <- struct{}{}
+		go func(i int, p RPath) {
+			defer wg.Done()
+			defer func() { <-sem }()
+			steps, diverged, sig, desc, lg := RunReplay(in.Family, p, 300+i, in.Stub)
+			if sig != "" && !strings.HasPrefix(sig, "infra:") {
+				// timing: retry once before reporting
+				steps2, div2, sig2, desc2, lg2 := RunReplay(in.Family, p, 3000+i, in.Stub)
+				if sig2 == "" {
+					mu.Lock()
+					res.Count("retried", 1)
+					mu.Unlock()
+				}
+				steps, diverged, sig, desc, lg = steps2, div2, sig2, desc2, append(append(lg, "---- retry ----"), lg2...)
+			}
+			mu.Lock()
+			defer mu.Unlock()
+			for k := 0; k < steps; k++ {
+				res.Eval(in.Family + "|" + hx.JSON(p.Steps[k].Act) + "|" + hx.JSON(p.Steps[k].Want))
+			}
+			if diverged {
+				res.Count("diverged", 1)
+			}
+			if strings.HasPrefix(sig, "infra:") {
+				res.Count("infra", 1)
+				res.Note("INFRA path %d: %s %s", i, sig, desc)
+			} else if sig != "" {
+				res.Mismatch(sig, fmt.Sprintf("path %d: %s", i, desc), map[string]any{"kind": "path", "family": in.Family, "path": p, "log": lg})
+			}
+			if i == 0 {
+				res.Sample(map[string]any{"family": in.Family, "path": p})
+			}
+		}(i, p)
+	}
+	wg.Wait()
+	res.Count("paths", len(in.Paths))
 }
